@@ -834,6 +834,22 @@ func stType(vs []stateVar) string {
 
 // newLoop translates a loop of the second-round subset (see the head of this file).
 func (t *tr) newLoop(s ast.Stmt, cont func() string) string {
+	// a pointer retargeted in a loop has no static target afterwards (mut.go)
+	ast.Inspect(s, func(n ast.Node) bool {
+		if as, ok := n.(*ast.AssignStmt); ok {
+			for _, l := range as.Lhs {
+				if id, isId := l.(*ast.Ident); isId {
+					if _, isAlias := t.alias[t.p.info.Uses[id]]; isAlias {
+						t.fail(as, "the pointer %s is given a target inside a loop (its target must be statically known)", id.Name)
+					}
+				}
+			}
+		}
+		return true
+	})
+	if t.err != nil {
+		return "?"
+	}
 	sh, ok := t.shapeOf(s)
 	if !ok || t.err != nil {
 		return "?"
@@ -1044,7 +1060,7 @@ func (t *tr) newLoop(s ast.Stmt, cont func() string) string {
 		ret: retf,
 	}
 	var body string
-	entryPS := t.snapshot() // what the body initialises / retargets is not known after the loop (it may run zero times)
+	entryPS := t.snapshot() // what the body initialises is not known after the loop (it may run zero times)
 	if sh.kind == "while" {
 		postK := func() string {
 			if sh.post == nil {
